@@ -32,6 +32,7 @@ import (
 
 type schedStats struct {
 	Ops, Scenarios, Schedules, Blocked int
+	Deadlocks                          int
 	ScenarioHist                       map[string]int
 	OutcomeHist                        map[string]int
 	Monitors, Notes, Samples           []string
@@ -66,6 +67,8 @@ type scheduler struct {
 	done    [2]chan struct{}
 	trace   []string
 	enabled bool
+	// deadlock: neither thread came back for seconds: each waits for a lock the other holds
+	deadlock bool
 }
 
 func newScheduler() *scheduler {
@@ -158,6 +161,16 @@ func (s *scheduler) execute(first int, plan []int, fn [2]func()) (blocked int) {
 	cur := first
 	await(0)
 	await(1)
+	// stuck: consecutive rounds in which neither thread could be moved (each round waits 60 ms per thread)
+	stuck := 0
+	progress := func(ok bool) {
+		if ok {
+			stuck = 0
+		} else {
+			stuck++
+		}
+	}
+	const stuckLimit = 30
 	for pi := 0; pi <= len(plan); pi++ {
 		budget := 1 << 30
 		if pi < len(plan) {
@@ -168,9 +181,16 @@ func (s *scheduler) execute(first int, plan []int, fn [2]func()) (blocked int) {
 				// cur is blocked on a lock the other thread holds: run the other one until cur comes back
 				blocked++
 				for !finished[1-cur] {
-					step(1 - cur)
-					if await(cur) {
+					moved := step(1 - cur)
+					back := await(cur)
+					progress(moved || back)
+					if back {
 						break
+					}
+					if stuck >= stuckLimit {
+						s.deadlock = true
+						s.enabled = false
+						return blocked
 					}
 				}
 				if !await(cur) {
@@ -188,8 +208,15 @@ func (s *scheduler) execute(first int, plan []int, fn [2]func()) (blocked int) {
 	}
 	for t := 0; t < 2; t++ {
 		for !finished[t] {
-			if !step(t) {
-				step(1 - t)
+			moved := step(t)
+			if !moved && !finished[1-t] {
+				moved = step(1 - t)
+			}
+			progress(moved)
+			if stuck >= stuckLimit {
+				s.deadlock = true
+				s.enabled = false
+				return blocked
 			}
 		}
 	}
@@ -412,9 +439,25 @@ func (r *schedRun) scenario(outDir string, sc schedScenario, n, t int) {
 		s.install(obs)
 		r.st.Blocked += s.execute(p.first, p.steps, [2]func(){func() { api(obs) }, func() { poll(obs) }})
 		obs.st.hook, obs.st.readHook, obs.stg.hook, obs.stg.readHook = nil, nil, nil, nil
-		got := finalState(c, obs, boardFrom)
 		r.st.Schedules++
 		r.st.ScenarioHist[sc.name]++
+		if s.deadlock {
+			// neither serial order ends like this: the request never returns and the tick never finishes (the rest of the log is
+			// never applied). The node's services are left behind with their locks held; the next plan restores a fresh node.
+			r.st.OutcomeHist[sc.name+"/deadlock"]++
+			r.st.Deadlocks++
+			who := []string{"API request", "poller"}
+			if r.st.Deadlocks <= 4 {
+				r.mon(fmt.Sprintf("C14 serializable (n=%d,t=%d) %s: %s first, pre-empted after %v steps: the request and the poll tick block each other for good (neither came back within %d ms): the request never returns, the tick never ends and the rest of the log is never applied; interleaving so far: %s",
+					n, t, sc.name, who[p.first], p.steps, 60*2*30, truncate(strings.Join(s.trace, " "), 700)))
+			}
+			if r.st.Deadlocks >= 12 {
+				r.mon("C14 serializable: more than a dozen schedules ended in a deadlock: the run was cut short")
+				return
+			}
+			continue
+		}
+		got := finalState(c, obs, boardFrom)
 		if got != s1 && got != s2 {
 			r.st.OutcomeHist[sc.name+"/differs"]++
 			who := []string{"API request", "poller"}
